@@ -205,4 +205,4 @@ ASSUME = ['None and NaN are both used as missing markers (chosen by the presenta
 if __name__ == '__main__':
     tier = sys.argv[1] if len(sys.argv) > 1 else 'quick'
     sys.exit(run_check('C08', tier, layers(tier), assumptions=ASSUME,
-                       cap_s=300 if tier == 'quick' else 3000))
+                       cap_s=300 if tier == 'quick' else 6000))
